@@ -1,4 +1,5 @@
 mod c03;
+mod c05;
 mod c06;
 mod c09;
 mod c15;
@@ -106,6 +107,8 @@ fn main() {
         ("run", "C15") => c15::run(&mut ctx),
         ("run", "C03") => c03::run(&mut ctx, false),
         ("run", "C04") => c03::run(&mut ctx, true),
+        ("run", "C05") => c05::run_c05(&mut ctx),
+        ("run", "C20") => c05::run_c20(&mut ctx),
         ("run", "C06") => c06::run(&mut ctx, false),
         ("run", "C07") => c06::run(&mut ctx, true),
         ("run", "C09") => c09::run(&mut ctx),
